@@ -1008,7 +1008,7 @@ def callee_expr(call):
     return e if isinstance(e, (ast.Attribute, ast.Name)) else call.func
 
 
-def case_reach(cfg, p, case_cls, anc, stopping, sinks, flag_eval=None, start=None):
+def case_reach(cfg, p, case_cls, anc, stopping, sinks, flag_eval=None, start=None, avoid=()):
     """Is a node of `sinks` reachable from the entry when the handler runs for a failure of class `case_cls` with
     `self._stopping == stopping`?  Branches whose test evaluates (three-valued) under that case are pruned; boolean
     locals assigned from evaluable expressions are tracked along each path, so a test on a temporary or on the result
@@ -1023,6 +1023,8 @@ def case_reach(cfg, p, case_cls, anc, stopping, sinks, flag_eval=None, start=Non
         seen.add((x, envt))
         if x in sinks:
             return True
+        if x in avoid:
+            continue
         n = cfg.nodes[x]
         env = dict(envt)
         if n.kind == "stmt" and isinstance(n.stmt, (ast.Assign, ast.AnnAssign)) and getattr(n.stmt, "value", None) is not None:
